@@ -313,6 +313,20 @@ func progStartedHang() *Program {
 	}, Outputs: []Output{{"success", O("r", E(sv("b")))}}}
 }
 
+// a consumer of the started event of a step that may end disabled (alone, and next to a step that never ends)
+func progEnabledStarted(hang bool) *Program {
+	p := &Program{Name: "enabledstarted", Steps: []Step{
+		{ID: "a", Input: O("v", E("$.input.n")), Enabled: E("$.input.flag")},
+		{ID: "b", Input: O("v", I(3)), WaitFor: E("$.steps.a.starting.started")},
+	}, Outputs: []Output{{"success", O("r", E(sv("b")))}, {"off", O("m", E("$.steps.a.disabled.output.message"))}}}
+	if hang {
+		p.Name = "enabledstartedhang"
+		p.Steps = append(p.Steps, Step{ID: "h", Input: O("v", I(0)), ClosureMS: I(50)})
+		p.Outputs = p.Outputs[:1]
+	}
+	return p
+}
+
 // literal (non-expression) enabled values: YAML scalars reach the provider as strings
 func progEnabledLit(name string, lit any) *Program {
 	return &Program{Name: name, Steps: []Step{
@@ -328,7 +342,7 @@ func progEnabledLit(name string, lit any) *Program {
 func hangScenarios() []*Scenario {
 	var out []*Scenario
 	alts := []stepAlt{altsBasic[0], altsBasic[1], altsBasic[2], altsBasic[3], {"mismatch", env.StepScript{Run: env.RunSchemaMismatch}}, {"schemafail", env.StepScript{ReadSchemaFails: true}}}
-	for _, p := range []*Program{progUnrelatedHang(), progStartedHang()} {
+	for _, p := range []*Program{progUnrelatedHang(), progStartedHang(), progEnabledStarted(true)} {
 		others := &Program{Name: p.Name}
 		for _, st := range p.Steps {
 			if st.ID != "h" {
@@ -336,12 +350,21 @@ func hangScenarios() []*Scenario {
 			}
 		}
 		for _, hk := range []stepAlt{{"hang", env.StepScript{Run: env.RunHangCancel}}, {"hangx", env.StepScript{Run: env.RunHangIgnore}}} {
-			for _, sc := range vectors(others, alts, 40) {
-				h := hk.sc
-				sc.Steps["h"] = &h
-				s := &Scenario{Class: p.Name, Prog: p, Script: sc, Input: map[string]any{"n": 5}}
-				s.Name = p.Name + "/" + vecName(sc) + "/" + canonStr(s.Input)
-				out = append(out, s)
+			for _, sc0 := range vectors(others, alts, 40) {
+				for _, in := range defaultInputs(p) {
+					cp := *sc0
+					sc := &cp
+					sc.Steps = map[string]*env.StepScript{}
+					for k, v := range sc0.Steps {
+						c := *v
+						sc.Steps[k] = &c
+					}
+					h := hk.sc
+					sc.Steps["h"] = &h
+					s := &Scenario{Class: p.Name, Prog: p, Script: sc, Input: in}
+					s.Name = p.Name + "/" + vecName(sc) + "/" + canonStr(s.Input)
+					out = append(out, s)
+				}
 			}
 		}
 	}
@@ -509,7 +532,7 @@ func catalogue() []*Program {
 		progEnabledLit("enabledlit-false", false), progEnabledLit("enabledlit-true", true), progEnabledLit("enabledlit-no", "no"),
 		progForeachEnabledLit("loopenabledlit-true", true), progForeachEnabledLit("loopenabledlit-off", "off"),
 		progSingle(), progChain(2), progChain(3), progFanIn(), progDiamond(), progMultiOut(), progMultiOut2(),
-		progWaitStarted(), progEnabled(), progEnabledChain(), progStopInput(), progStopProducer(), progDeployExpr(),
+		progWaitStarted(), progEnabledStarted(false), progEnabled(), progEnabledChain(), progStopInput(), progStopProducer(), progDeployExpr(),
 		progOptional(), progSoftOptional(), progOptionalInput(), progOneOf(), progOneOf2(),
 		progForeach(subProg(), 1), progForeach(subProg(), 2), progForeach(subProgErr(), 3), progUnrelatedHang(),
 	}
@@ -612,7 +635,7 @@ func vectors(p *Program, alts []stepAlt, limit int) []*env.Script {
 
 func defaultInputs(p *Program) []map[string]any {
 	switch p.Name {
-	case "enabled", "enabledchain", "stopinput":
+	case "enabled", "enabledchain", "stopinput", "enabledstarted", "enabledstartedhang":
 		return []map[string]any{{"n": 5, "flag": true}, {"n": 5, "flag": false}}
 	case "deployexpr":
 		return []map[string]any{{"n": 5, "s": "tag1"}}
@@ -755,6 +778,10 @@ func tagPrograms() []*Program {
 			{ID: "a", Input: O("v", I(1)), StopIf: E("$.steps.p.outputs.success"), ClosureMS: I(50)},
 			{ID: "c", Input: O("v", I(3), "s", Opt{true, ss("a")})}},
 			Outputs: []Output{{"done", O("t", E(sv("p")), "q", E(sv("c")))}}},
+		{Name: "optstarted", Steps: []Step{
+			{ID: "a", Input: O("v", E("$.input.n")), Enabled: E("$.input.flag")},
+			{ID: "c", Input: O("v", I(2)), WaitFor: O("x", Opt{true, "$.steps.a.starting.started"})}},
+			Outputs: []Output{{"success", O("r", E(sv("c")))}}},
 		{Name: "optinwaitfor", Steps: []Step{
 			pstep("a", O("v", E("$.input.n"))),
 			{ID: "c", Input: O("v", I(2)), WaitFor: O("x", Opt{true, "$.steps.a.outputs.success"})}},
@@ -764,7 +791,7 @@ func tagPrograms() []*Program {
 
 func tagInputs(p *Program) []map[string]any {
 	switch p.Name {
-	case "enabled", "waitoptdisabled", "enabledep2", "optmultiin":
+	case "enabled", "waitoptdisabled", "enabledep2", "optmultiin", "optstarted":
 		return []map[string]any{{"n": 5, "flag": true}, {"n": 5, "flag": false}}
 	}
 	return []map[string]any{{"n": 5}}
